@@ -7,17 +7,21 @@ import (
 	"github.com/weedbox/syncsaga"
 )
 
+func newReadyGroup(timeout int) *syncsaga.ReadyGroup {
+	return syncsaga.NewReadyGroup(syncsaga.WithTimeout(timeout, func(rg *syncsaga.ReadyGroup) {
+		// Auto Ready By Default
+		for idx, isReady := range rg.GetParticipantStates() {
+			if !isReady {
+				rg.Ready(idx)
+			}
+		}
+	}))
+}
+
 func NewOpenGameManager(options OpenGameOption) OpenGameManager {
 	m := &openGameManager{
 		onOpenGameReady: options.OnOpenGameReady,
-		rg: syncsaga.NewReadyGroup(syncsaga.WithTimeout(options.Timeout, func(rg *syncsaga.ReadyGroup) {
-			// Auto Ready By Default
-			for idx, isReady := range rg.GetParticipantStates() {
-				if !isReady {
-					rg.Ready(idx)
-				}
-			}
-		})),
+		rg:              newReadyGroup(options.Timeout),
 	}
 	m.state = &OpenGameState{
 		Timeout:      options.Timeout,
@@ -31,14 +35,7 @@ func NewOpenGameManager(options OpenGameOption) OpenGameManager {
 func NewOpenGameManagerFromState(state OpenGameState, options OpenGameOption) OpenGameManager {
 	m := &openGameManager{
 		onOpenGameReady: options.OnOpenGameReady,
-		rg: syncsaga.NewReadyGroup(syncsaga.WithTimeout(options.Timeout, func(rg *syncsaga.ReadyGroup) {
-			// Auto Ready By Default
-			for idx, isReady := range rg.GetParticipantStates() {
-				if !isReady {
-					rg.Ready(idx)
-				}
-			}
-		})),
+		rg:              newReadyGroup(options.Timeout),
 		state: &OpenGameState{
 			Timeout:      options.Timeout,
 			GameCount:    state.GameCount,
@@ -46,7 +43,7 @@ func NewOpenGameManagerFromState(state OpenGameState, options OpenGameOption) Op
 		},
 	}
 	m.rg.OnCompleted(func(rg *syncsaga.ReadyGroup) {
-		m.readyGroupOnCompleted()
+		m.readyGroupOnCompleted(rg)
 	})
 
 	m.readyGroupResetParticipants()
@@ -71,15 +68,26 @@ func NewOpenGameManagerFromState(state OpenGameState, options OpenGameOption) Op
 }
 
 func (m *openGameManager) Ready(participantID string) error {
+	m.mu.Lock()
+	defer m.mu.Unlock()
+
 	return m.readyGroupReady(participantID)
 }
 
 func (m *openGameManager) Setup(gameCount int, participants map[string]int) {
+	m.mu.Lock()
+	defer m.mu.Unlock()
+
 	m.state.GameCount = gameCount
 
+	// A stopped ready group keeps draining the signals queued before Stop and can
+	// still complete. Every set-up therefore gets a fresh group: stale signals of
+	// the previous set-up cannot count for this one, and a completion of a
+	// superseded group is recognised and dropped (readyGroupOnCompleted).
 	m.rg.Stop()
+	m.rg = newReadyGroup(m.state.Timeout)
 	m.rg.OnCompleted(func(rg *syncsaga.ReadyGroup) {
-		m.readyGroupOnCompleted()
+		m.readyGroupOnCompleted(rg)
 	})
 	m.readyGroupResetParticipants()
 	for id, idx := range participants {
@@ -95,10 +103,16 @@ func (m *openGameManager) Setup(gameCount int, participants map[string]int) {
 }
 
 func (m *openGameManager) GetState() OpenGameState {
-	return *m.state
+	m.mu.Lock()
+	defer m.mu.Unlock()
+
+	return m.copyState()
 }
 
 func (m *openGameManager) PrintState() {
+	m.mu.Lock()
+	defer m.mu.Unlock()
+
 	encoded, err := json.Marshal(m.state)
 	if err != nil {
 		fmt.Println("state: nil")
